@@ -152,10 +152,10 @@ static void treat_case(Case& c) {
     Env env; Provider prov(rng.next());
     Pool pool(sei ? ModelType::SusceptibleExposedInfected : ModelType::SusceptibleInfected, h.s, h.e, (unsigned)latency, h.i, h.te,
               h.r, h.m, h.died, h.th, env, false, 1.0, false, 0.5, rows, cols, h.suitable);
-    static const int ys[] = {2019, 2020, 2023};
+    static const int ys[] = {2019, 2020, 2023, 2099, 2100};
     int unit = rng.in(0, 2);
-    unsigned num = unit == 0 ? (unsigned)rng.in(7, 28) : unit == 1 ? (unsigned)rng.in(1, 6) : (unsigned)rng.in(1, 2);
-    Date st(ys[rng.in(0, 2)], rng.coin(40) ? rng.in(10, 12) : rng.in(1, 12), unit == 2 ? 1 : rng.in(1, 28)); Date en(st); en.add_days((unsigned)rng.in(90, 420));
+    unsigned num = unit == 0 ? (unsigned)rng.in(1, 28) : unit == 1 ? (unsigned)rng.in(1, 6) : (unsigned)rng.in(1, 2);
+    Date st(ys[rng.in(0, 4)], rng.coin(40) ? rng.in(10, 12) : rng.in(1, 12), unit == 2 ? 1 : rng.in(1, 28)); Date en(st); en.add_days((unsigned)(rng.coin(40) ? rng.in(400, 800) : rng.in(90, 420)));
     Scheduler sched(st, en, unit == 0 ? StepUnit::Day : unit == 1 ? StepUnit::Week : StepUnit::Month, num);
     unsigned nsteps = sched.get_num_steps();
     Treatments<Pool, DRaster> treatments(sched);
@@ -170,10 +170,13 @@ static void treat_case(Case& c) {
         unsigned stp = (unsigned)rng.in(0, (int)nsteps - 1);
         Date d = rng.coin(50) ? sched.get_step(stp).start_date() : sched.get_step(stp).end_date();
         int days = rng.coin(45) ? 0 : rng.in(10, 150);
+        // durations that cross a New Year and last beyond February (the end date then depends on the leap
+        // status of the NEW year) get their own share
+        if (days && rng.coin(40)) { int left = 365 - (d.month() - 1) * 30 - d.day(); if (left < 1) left = 1; days = left + rng.in(61, 130); stats.add("treat_crosses_new_year_past_february"); }
         bool all = rng.coin(30);
         std::string e = err_kind([&] { treatments.add_treatment(map, d, days, all ? TreatmentApplication::AllInfectedInCell : TreatmentApplication::Ratio); });
         if (!e.empty()) { stats.add("treat_date_rejected"); continue; }
-        Date de(d); de.add_days((unsigned)days);
+        int ey, em, ed; ::verif::civil_add_days(d.year(), d.month(), d.day(), days, ey, em, ed); Date de(ey, em, ed);  // independent of Date::add_days
         unsigned s0 = sched.schedule_action_date(d), s1 = days ? sched.schedule_action_date(de) : s0;
         list << " " << (days ? "pesticide" : "simple") << ":" << (all ? "all_infected_in_cell" : "ratio") << ":" << s0 << ":" << s1 << cs.str();
         listed++; stats.add(days ? "treat_pesticide" : "treat_simple");
